@@ -13,7 +13,12 @@
 //!                             the image and a FRESH appender (append flag = mode) is built on it.
 //!                             When the k-th call is never reached: plain restart after the op
 //!      (1 mode)               restart: drop the appender, build a new one
+//!      (0 record (3 L))       append while RLIMIT_FSIZE = L bytes (SIGXFSZ ignored): a write
+//!                             beyond L fails with EFBIG, the moral equivalent of a full disk
 //!      (2) / (3)              create / remove a non-empty directory at the top archive name
+//!      (4 kind j) / (5)       make / undo "the directory of slot base+j cannot be created":
+//!                             kind 0 a dangling symlink, kind 1 a regular file at the slot's
+//!                             directory name (patterns with {} in a directory component)
 //! result: ( (ack (listing ...) listing) ... ), entry 0 = the initial build, then one per op:
 //!   ack 0 Ok / 1 Err (or died), the directory at each hook call of the op (up to and
 //!   including the crash point), the directory after the op.  Listings as in C07
@@ -81,12 +86,67 @@ impl Drop for HookGuard {
     }
 }
 
+/// listing() of c07_fsutil, except that symbolic links are skipped (the slot-directory
+/// obstacle is a dangling symlink)
+fn listing_ns(root: &Path) -> Vec<(String, Vec<u8>)> {
+    fn walk(dir: &Path, rel: &str, out: &mut Vec<(String, Vec<u8>)>) {
+        let rd = match fs::read_dir(dir) {
+            Ok(r) => r,
+            Err(_) => return,
+        };
+        for e in rd {
+            let e = e.expect("dir entry");
+            let name = e.file_name().to_string_lossy().into_owned();
+            let r = if rel.is_empty() { name.clone() } else { format!("{}/{}", rel, name) };
+            let ft = e.file_type().expect("file type");
+            if ft.is_symlink() {
+                continue;
+            } else if ft.is_dir() {
+                walk(&e.path(), &r, out);
+            } else {
+                let raw = fs::read(e.path()).expect("read file");
+                out.push((r, observable(raw)));
+            }
+        }
+    }
+    let mut out = vec![];
+    walk(root, "", &mut out);
+    out.sort();
+    out
+}
+
+/// RLIMIT_FSIZE soft limit for the duration of one call; restored on drop
+struct FsizeLimit {
+    old: libc::rlimit,
+}
+impl FsizeLimit {
+    fn set(bytes: u64) -> FsizeLimit {
+        unsafe {
+            libc::signal(libc::SIGXFSZ, libc::SIG_IGN);
+            let mut old = libc::rlimit { rlim_cur: 0, rlim_max: 0 };
+            assert_eq!(libc::getrlimit(libc::RLIMIT_FSIZE, &mut old), 0);
+            let new = libc::rlimit { rlim_cur: bytes as libc::rlim_t, rlim_max: old.rlim_max };
+            assert_eq!(libc::setrlimit(libc::RLIMIT_FSIZE, &new), 0);
+            FsizeLimit { old }
+        }
+    }
+}
+impl Drop for FsizeLimit {
+    fn drop(&mut self) {
+        unsafe {
+            libc::setrlimit(libc::RLIMIT_FSIZE, &self.old);
+        }
+    }
+}
+
 fn copy_tree(src: &Path, dst: &Path) {
     fs::create_dir_all(dst).expect("mkdir");
     for e in fs::read_dir(src).expect("read_dir") {
         let e = e.expect("entry");
         let to = dst.join(e.file_name());
-        if e.file_type().expect("ft").is_dir() {
+        if e.file_type().expect("ft").is_symlink() {
+            std::os::unix::fs::symlink(fs::read_link(e.path()).expect("readlink"), &to).expect("symlink");
+        } else if e.file_type().expect("ft").is_dir() {
             copy_tree(&e.path(), &to);
         } else {
             fs::copy(e.path(), &to).expect("copy");
@@ -152,7 +212,7 @@ fn entry(ack_err: bool, imgs: &[Vec<(String, Vec<u8>)>], root: &Path) -> Val {
     Val::L(vec![
         Val::N(ack_err as u128),
         Val::L(imgs.iter().map(|l| listing_val(l)).collect()),
-        listing_val(&listing(root)),
+        listing_val(&listing_ns(root)),
     ])
 }
 
@@ -195,7 +255,7 @@ pub fn run(case: &Val) -> Val {
             if st.dead {
                 return Ok(());
             }
-            let l = listing(&st.root);
+            let l = listing_ns(&st.root);
             st.images.push(l);
             if st.crash_at == Some(k) {
                 let d = tempfile::tempdir().expect("crash dir");
@@ -214,16 +274,18 @@ pub fn run(case: &Val) -> Val {
     let mut app = Some(setup.build(c[7].b()));
     out.push(entry(false, &[], &root));
     let mut next_id = 0usize;
+    let mut slot_obst: Option<PathBuf> = None;
     for o in ops {
         let o = o.l();
         match o[0].n() {
             0 => {
                 let f = o[2].l();
                 let (fail_at, crash_at, restart) = match f[0].n() {
-                    0 => (None, None, None),
+                    0 | 3 => (None, None, None),
                     1 => (Some(f[1].u()), None, None),
                     _ => (None, Some(f[1].u()), Some(f[2].b())),
                 };
+                let fsize = if f[0].n() == 3 { Some(f[1].n() as u64) } else { None };
                 {
                     let mut st = hs.lock().unwrap();
                     st.fail_at = fail_at;
@@ -232,7 +294,10 @@ pub fn run(case: &Val) -> Val {
                     st.crash_dir = None;
                     st.dead = false;
                 }
-                let ok = append_id(app.as_ref().expect("appender"), next_id);
+                let ok = {
+                    let _lim = fsize.map(FsizeLimit::set);
+                    append_id(app.as_ref().expect("appender"), next_id)
+                };
                 next_id += 1;
                 let (imgs, crash_dir) = {
                     let mut st = hs.lock().unwrap();
@@ -263,8 +328,31 @@ pub fn run(case: &Val) -> Val {
                 fs::write(Path::new(&top).join("keep"), b"obst").expect("obstacle file");
                 out.push(entry(false, &[], &root));
             }
-            _ => {
+            3 => {
                 fs::remove_dir_all(&top).expect("remove obstacle");
+                out.push(entry(false, &[], &root));
+            }
+            4 => {
+                let slot = setup.pattern.replace("{}", &(setup.base as u64 + o[2].n() as u64).to_string());
+                let d = Path::new(&slot).parent().expect("slot directory").to_path_buf();
+                if let Some(pp) = d.parent() {
+                    if !pp.as_os_str().is_empty() {
+                        fs::create_dir_all(pp).expect("mkdir");
+                    }
+                }
+                if d.is_dir() {
+                    fs::remove_dir(&d).expect("slot directory is empty");
+                }
+                if o[1].n() == 0 {
+                    std::os::unix::fs::symlink("gone-volume/nowhere", &d).expect("symlink");
+                } else {
+                    fs::write(&d, b"obst").expect("obstacle file");
+                }
+                slot_obst = Some(d);
+                out.push(entry(false, &[], &root));
+            }
+            _ => {
+                fs::remove_file(slot_obst.take().expect("obstacle placed")).expect("remove obstacle");
                 out.push(entry(false, &[], &root));
             }
         }
